@@ -260,11 +260,14 @@ def redialm(prop, tier, verdict, sample_quick, only=None):
     import vlib
     wd = vlib.scratch('rdm_' + prop)
     cfg = 'RedialM_mc2.cfg' if tier == 'thorough' else 'RedialM_mc.cfg'
-    r = vlib.tlc_must_hold('RedialM', cfg, workdir=wd, workers=8, timeout=3000)
+    r = vlib.tlc_must_hold('RedialM', cfg, workdir=wd, workers=8, timeout=6000)
     known = []
     # the model still knows the repaired defects: with one repair switched off TLC must refute the named invariant
-    for fix, inv in (('CloseLock', 'NoHangG'), ('LostClose', 'CloseEffectiveG'), ('StaleEnd', 'AliveOrEndedG'), ('StaleReader', 'AliveOrEndedG')):
-        viol, _, rr = vlib.counterexample('RedialM', 'RedialM_asis_%s.cfg' % fix, var='status', workdir=wd, workers=4, timeout=900)
+    # (in the quick tier only by the check of C13; the other checks that use the engine rely on it)
+    asis = (('CloseLock', 'NoHangG'), ('LostClose', 'CloseEffectiveG'), ('StaleEnd', 'AliveOrEndedG'), ('StaleReader', 'AliveOrEndedG'), ('LateCancel', 'NoHangG'))
+    # (LateCancel needs two calls: 17 M states before the refutation, thorough tier only)
+    for fix, inv in (asis if tier == 'thorough' else asis[:4] if prop == 'C13' else ()):
+        viol, _, rr = vlib.counterexample('RedialM', 'RedialM_asis_%s.cfg' % fix, var='status', workdir=wd, workers=6, timeout=2400)
         if not viol:
             raise vlib.Broken('RedialM with Fix%s = FALSE no longer violates %s: the model has lost the defect' % (fix, inv))
         known.append('%s -> %s refuted' % (fix, inv))
